@@ -261,7 +261,7 @@ MUTANTS["C03"] = [
     M("x86_default_dest_first", ISA, "            # return last operand\n            return instruction_form.operands[-1:]", "            # return last operand\n            return instruction_form.operands[:1]", "R6"),
     M("a64_sources_all", ISA, "            return [op for op in instruction_form.operands[1:]]", "            return [op for op in instruction_form.operands[0:]]", "R6"),
     M("edge_attr_renamed", KDG, "                dg.add_edge(\n                    instruction_form.line_number,\n                    dep.line_number,\n                    latency=edge_weight,\n                )", "                dg.add_edge(\n                    instruction_form.line_number,\n                    dep.line_number,\n                    weight=edge_weight,\n                )", "R7"),
-    M("longest_path_other_key", KDG, 'dag_longest_path(self.dg, weight="latency")', 'dag_longest_path(self.dg, weight="lat")', "R7"),
+    M("longest_path_other_key", KDG, 'dag_longest_path(dg, weight="latency")', 'dag_longest_path(dg, weight="lat")', "R7"),
     M("edge_reversed", KDG, "                dg.add_edge(\n                    instruction_form.line_number,\n                    dep.line_number,", "                dg.add_edge(\n                    dep.line_number,\n                    instruction_form.line_number,", "R7"),
     M("weight_with_load", KDG, "                    else instruction_form.latency_wo_load\n                )", "                    else instruction_form.latency\n                )", "R7"),
     M("writeback_weight_const", KDG, 'edge_weight = self.model.get("p_index_latency", 1)', "edge_weight = 1", "R7"),
